@@ -88,6 +88,20 @@ Definition spec_step (z : bool) (a : astore) (o : op) : option (out * astore) :=
       | Some (false, _), Some (true, x) => Some (OUnit, aupd a i (Some (false, x)))
       | _, _ => None
       end
+  | AssignDeref i j mv =>                          (* c = *a : c gets a's value, a is unchanged (also for std::move( *a )) *)
+      match a i, a j with
+      | Some (ti, _), Some (tj, Some v) =>
+          if Bool.eqb ti tj then Some (OUnit, aupd a i (Some (ti, Some v))) else None
+      | _, _ => None
+      end
+  | EmplaceDeref i j mv =>                         (* c.emplace( *a ) / c.emplace(std::move( *a )) *)
+      match a i, a j with
+      | Some (ti, _), Some (tj, Some v) =>
+          if Bool.eqb ti tj && negb (N.eqb i j)
+          then Some (OUnit, aupd (aupd a j (Some (tj, if mv then moved z (Some v) else Some v))) i (Some (ti, Some v)))
+          else None
+      | _, _ => None
+      end
   | Emplace i v =>
       match a i with Some (ti, _) => Some (OUnit, aupd a i (Some (ti, Some v))) | None => None end
   | Reset i =>
@@ -125,8 +139,8 @@ Definition writes (o : op) : list N :=
   match o with
   | CtorDefault i _ | CtorValue i _ _ | MakeOptional i _ _ | CtorCopy i _ | CtorConvCopy i _
   | Dtor i | AssignValue i _ | AssignCopy i _ | AssignConvCopy i _ | AssignConvMove i _
-  | Emplace i _ | Reset i => [i]
-  | CtorMove i j | CtorConvMove i j | AssignMove i j => [i; j]
+  | Emplace i _ | Reset i | AssignDeref i _ _ | EmplaceDeref i _ false => [i]
+  | CtorMove i j | CtorConvMove i j | AssignMove i j | EmplaceDeref i j true => [i; j]
   | HasValue _ | Value _ | ValueOr _ _ | Cmp _ _ _ | ToString _ => []
   end.
 
@@ -162,7 +176,8 @@ Definition gives (a : astore) (o : op) : option (N * aopt) :=
   | CtorDefault i _ | Reset i => Some (i, None)
   | CtorValue i _ v | MakeOptional i _ v | AssignValue i v | Emplace i v => Some (i, Some v)
   | CtorCopy i j | CtorMove i j | CtorConvCopy i j | CtorConvMove i j
-  | AssignCopy i j | AssignMove i j | AssignConvCopy i j | AssignConvMove i j =>
+  | AssignCopy i j | AssignMove i j | AssignConvCopy i j | AssignConvMove i j
+  | AssignDeref i j _ | EmplaceDeref i j _ =>
       match src_state a j with Some x => Some (i, x) | None => None end
   | _ => None
   end.
@@ -230,7 +245,8 @@ Definition observed (pk : pkind) (l : list ev) : list ev := filter (fun e => vis
 Definition transfer_of (o : op) : option (N * N) :=
   match o with
   | CtorCopy i j | CtorMove i j | CtorConvCopy i j | CtorConvMove i j
-  | AssignCopy i j | AssignMove i j | AssignConvCopy i j | AssignConvMove i j => Some (i, j)
+  | AssignCopy i j | AssignMove i j | AssignConvCopy i j | AssignConvMove i j
+  | AssignDeref i j _ | EmplaceDeref i j _ => Some (i, j)
   | _ => None
   end.
 Definition is_src_read (j : N) (e : ev) : bool :=
